@@ -596,9 +596,15 @@ impl Prop for C05Prop {
                         ARGNAME_CTR.store(n, Ordering::SeqCst);
                         compile_out(src, d).ok().map(|o| o.code_hex)
                     };
-                    let (a1, a2, b1) = (at(5000), at(5000), at(777_777));
-                    if a1.is_some() && a1 == a2 && b1.is_some() && a1 != b1 {
-                        return Some("evaluator-com-leaks-let-bound-names");
+                    let (a1, a2) = (at(5000), at(5000));
+                    if a1.is_some() && a1 == a2 {
+                        // (the dependence can be on single digits of the name: several other values)
+                        for n in [777_777usize, 0, 50, 950, 99_990, 999_990, 100, 31, 123_456] {
+                            let b1 = at(n);
+                            if b1.is_some() && a1 != b1 {
+                                return Some("evaluator-com-leaks-let-bound-names");
+                            }
+                        }
                     }
                 }
             }
